@@ -33,8 +33,9 @@
 (* that were in flight when their upstream connection broke (their keys    *)
 (* are no longer judged: "taint"); replies racing each other on different  *)
 (* connections (a clause is skipped while another open request on the key  *)
-(* could explain the reply).  Unanswered requests after an upstream break  *)
-(* are reported under C03 (exactly one reply), not under C10.              *)
+(* could explain the reply).  A request that was forwarded and is never    *)
+(* answered after its upstream broke is neither refused nor relayed:       *)
+(* reported as request-via-follower-never-answered (finding FW2).          *)
 (***************************************************************************)
 EXTENDS Integers, Sequences, FiniteSets, TLC, Json, SequencesExt, FiniteSetsExt
 
@@ -50,7 +51,9 @@ TIMEOUT == 8  EXPRIED == 9        STATE_ERROR == 10   ERROR == 11
 TEXTERR == 0 - 1
 
 Bit(x, b) == (x \div b) % 2 = 1
-F_CONC == 8
+F_SHOW == 1   F_UPDATE == 2   F_CONC == 8
+UF_FIRST == 1   UF_CANCEL == 2
+TF_WAITUNLOCK == 512
 ZERO_AOF == 256
 
 EmptyFn == [x \in {} |-> 0]
@@ -66,7 +69,7 @@ Report(mm, p, code, detail) ==
 Check(mm, cond, p, code, detail) == IF cond THEN mm ELSE Report(mm, p, code, detail)
 
 M0 == [ reqs |-> EmptyFn, ups |-> EmptyFn, upseen |-> {}, holds |-> EmptyFn, taint |-> {}, roles |-> EmptyFn, gone |-> {}, frozen |-> FALSE,
-        vals |-> EmptyFn, lsnap |-> <<>>, lvals |-> <<>>, vkeys |-> {}, ldr |-> "L", nv |-> 0, tr |-> 0, name |-> "" ]
+        vals |-> EmptyFn, maxd |-> EmptyFn, lsnap |-> <<>>, lvals |-> <<>>, vkeys |-> {}, ldr |-> "L", nv |-> 0, tr |-> 0, name |-> "" ]
 
 HoldsOf(mm, d, k) == IF <<d, k>> \in DOMAIN mm.holds THEN mm.holds[<<d, k>>] ELSE <<>>
 DepthSum(H) == FoldLeft(LAMBDA acc, h : acc + h.depth, 0, H)
@@ -98,15 +101,20 @@ StepReq(mm, e) ==
         clash == {id \in OpenOn(mm, d, e.key, 0) : mm.reqs[id].to = 0} # {} /\ e.cmd \in {"L", "U"} /\ e.to = 0
         r == [id |-> e.id, conn |-> e.conn, node |-> e.node, proto |-> e.proto, cmd |-> e.cmd, key |-> e.key, lid |-> e.lid, flag |-> e.flag,
               tf |-> e.tf, to |-> e.to, ef |-> e.ef, ex |-> e.ex, cnt |-> e.cnt, rc |-> e.rc, val |-> e.val, first |-> e.first, len |-> e.len,
-              uprid |-> e.uprid, tap |-> e.tap, st |-> "open", dom |-> d, role |-> RoleOf(mm, e.node), broken |-> FALSE,
+              uprid |-> e.uprid, tap |-> e.tap, ts |-> e.ts, st |-> "open", dom |-> d, nfl |-> 0, role |-> RoleOf(mm, e.node), broken |-> FALSE,
               nolead |-> (e.node \in mm.gone \/ RoleOf(mm, e.node) = "config"), infreeze |-> (mm.frozen /\ RoleOf(mm, e.node) # "leader")]
     IN [mm EXCEPT !.reqs = SetFn(@, e.id, r), !.taint = IF clash THEN @ \cup {<<d, e.key>>} ELSE @]
 
 \* requests of a node that were open when one of its upstream connections broke / its leader went away / its role changed
-Break(mm, n) == [mm EXCEPT !.reqs = [id \in DOMAIN @ |-> IF @[id].node = n /\ @[id].st = "open" THEN [@[id] EXCEPT !.broken = TRUE] ELSE @[id]]]
+InFlightOn(mm, c) == {id \in DOMAIN mm.reqs : mm.reqs[id].conn = c /\ mm.reqs[id].st = "open" /\ mm.reqs[id].uprid # 0}
+Break(mm, n) == [mm EXCEPT !.reqs = [id \in DOMAIN @ |-> IF @[id].node = n /\ @[id].st = "open"
+                                                         THEN [@[id] EXCEPT !.broken = TRUE, !.nfl = IF @ = 0 THEN Cardinality(InFlightOn(mm, mm.reqs[id].conn)) ELSE @]
+                                                         ELSE @[id]]]
 
 StepUpReq(mm, e) == [mm EXCEPT !.upseen = @ \cup {e.rid}]
-StepUpReply(mm, e) == [mm EXCEPT !.ups = SetFn(@, e.rid, [res |-> e.res, lid |-> e.lid, key |-> e.key, lc |-> e.lc, cnt |-> e.cnt, lrc |-> e.lrc, rc |-> e.rc, datap |-> e.datap])]
+\* (a grant seen on the wire also tells how full the key has been, whether or not the client ever hears of it)
+StepUpReply(mm, e) == [mm EXCEPT !.ups = SetFn(@, e.rid, [res |-> e.res, lid |-> e.lid, key |-> e.key, lc |-> e.lc, cnt |-> e.cnt, lrc |-> e.lrc, rc |-> e.rc, datap |-> e.datap]),
+                                 !.maxd = IF e.ct = 1 /\ e.res = SUCCED THEN SetFn(@, e.key, Max({e.lc, IF e.key \in DOMAIN @ THEN @[e.key] ELSE 0})) ELSE @]
 
 -----------------------------------------------------------------------------
 \* engine effects of a reply that was decided by an engine (domain d)
@@ -132,18 +140,33 @@ LockReply(mm, e, r, d, k) ==
          ELSE IF i = 0
          THEN LET m1 == Judge(mm, AdmissibleStmt(H, r.cnt), ou, d, k, "grant-exceeds-count",
                               [rid |-> r.id, node |-> r.node, key |-> k, lid |-> lid, cnt |-> r.cnt, outstanding |-> DepthSum(H)])
-                  H2 == Append(H, [lid |-> lid, depth |-> 1, cnt |-> r.cnt, rc |-> r.rc, aof |-> Bit(r.ef, ZERO_AOF)])
+                  H2 == Append(H, [lid |-> lid, depth |-> 1, cnt |-> r.cnt, rc |-> r.rc, aof |-> Bit(r.ef, ZERO_AOF),
+                                   dlo |-> r.ts + r.ex - 2, dhi |-> e.ts + r.ex + 2])
                   m2 == Judge(m1, e.lc = DepthSum(H2) /\ e.lrc = 1, ou \/ ol, d, k, "reply-count-wrong",
                               [rid |-> r.id, node |-> r.node, lc |-> e.lc, lrc |-> e.lrc, truth |-> DepthSum(H2)])
-              IN [m2 EXCEPT !.holds = SetFn(@, <<d, k>>, H2)]
+              IN [m2 EXCEPT !.holds = SetFn(@, <<d, k>>, H2), !.maxd = SetFn(@, k, Max({DepthSum(H2), IF k \in DOMAIN @ THEN @[k] ELSE 0}))]
          ELSE LET h  == H[i]
                   \* (a request that may have been QUEUED and is granted while its LockId already holds is finding A12, a C02
                   \*  matter: not judged here - the excuse makes the key unjudged from here on)
                   m1 == Judge(mm, h.depth <= r.rc, ou \/ ol \/ r.to > 0, d, k, "relock-beyond-rcount", [rid |-> r.id, node |-> r.node, lid |-> lid, depth |-> h.depth, rc |-> r.rc])
-                  H2 == [H EXCEPT ![i] = [h EXCEPT !.depth = @ + 1, !.cnt = r.cnt, !.rc = r.rc, !.aof = @ \/ Bit(r.ef, ZERO_AOF)]]
+                  H2 == [H EXCEPT ![i] = [h EXCEPT !.depth = @ + 1, !.cnt = r.cnt, !.rc = r.rc, !.aof = @ \/ Bit(r.ef, ZERO_AOF),
+                                                  !.dlo = r.ts + r.ex - 2, !.dhi = e.ts + r.ex + 2]]
                   m2 == Judge(m1, e.lc = DepthSum(H2) /\ e.lrc = h.depth + 1, ou \/ ol, d, k, "reply-count-wrong",
                               [rid |-> r.id, node |-> r.node, lc |-> e.lc, lrc |-> e.lrc, truth |-> DepthSum(H2)])
-              IN [m2 EXCEPT !.holds = SetFn(@, <<d, k>>, H2)]
+              IN [m2 EXCEPT !.holds = SetFn(@, <<d, k>>, H2), !.maxd = SetFn(@, k, Max({DepthSum(H2), IF k \in DOMAIN @ THEN @[k] ELSE 0}))]
+    ELSE IF e.res = LOCKED_ERROR /\ Bit(r.flag, F_UPDATE) /\ IdxOfLid(H, e.lid) # 0
+    THEN \* update-when-locked answered LOCKED_ERROR while the LockId named in the reply holds: its terms are those of this request
+         \* now (an expiry change of at most 2 s may have been ignored: the deadline window then covers both)
+         LET j  == IdxOfLid(H, e.lid)
+             h  == H[j]
+             nlo == r.ts + r.ex - 2
+             nhi == e.ts + r.ex + 2
+             near == (nlo <= h.dhi + 2) /\ (h.dlo <= nhi + 2)
+             certain == e.lid = r.lid /\ ~ou /\ ~ol
+             H2 == [H EXCEPT ![j] = [h EXCEPT !.cnt = r.cnt, !.rc = r.rc,
+                                              !.dlo = IF ~certain THEN 0 ELSE IF near THEN Min({@, nlo}) ELSE nlo,
+                                              !.dhi = IF ~certain THEN 2000000000 ELSE IF near THEN Max({@, nhi}) ELSE nhi]]
+         IN [mm EXCEPT !.holds = SetFn(@, <<d, k>>, H2)]
     ELSE IF e.res \in {LOCKED_ERROR, TIMEOUT} /\ r.to = 0 /\ r.flag = 0
     THEN \* an immediate refusal by the deciding engine: the request was not admissible
          Judge(mm, i # 0 \/ ~AdmissibleStmt(H, r.cnt), ol \/ ou, d, k, "lock-refused-although-admissible",
@@ -152,7 +175,8 @@ LockReply(mm, e, r, d, k) ==
 
 UnlockReply(mm, e, r, d, k) ==
     LET H   == HoldsOf(mm, d, k)
-        lid == IF r.lid = 0 THEN e.lid ELSE r.lid
+        \* (unlock-first releases the OLDEST hold when the requester holds nothing: the reply names it)
+        lid == IF r.lid = 0 \/ Bit(r.flag, UF_FIRST) THEN e.lid ELSE r.lid
         i   == IdxOfLid(H, lid)
         others == OpenOn(mm, d, k, r.id) # {}
     IN
@@ -182,6 +206,14 @@ ValueReply(mm, e, r, decided) ==
          ELSE mm
 
 Refusal(e) == e.res \in {STATE_ERROR, ERROR, TEXTERR}
+FirstShort(r) == r.first /\ r.len > 0 /\ r.len <= 64 /\ r.role = "follower"
+\* LockDB.CheckProbableLock, exactly: LOCK with the concurrent-check flag AND Timeout = 0, answered TIMEOUT when the replica
+\* shows more holds than the request's Count (the replica may lag: "the key had that many holds at some time in this
+\* history"), or - with the wait-when-unlocked flag - when the replica shows none
+FastPath(mm, r, e) == /\ r.cmd = "L" /\ e.res = TIMEOUT /\ Bit(r.flag, F_CONC) /\ r.to = 0
+                      /\ \/ (r.key \in DOMAIN mm.maxd /\ mm.maxd[r.key] > r.cnt)
+                         \/ Bit(r.tf, TF_WAITUNLOCK)
+                         \/ Tainted(mm, r.dom, r.key)
 
 \* does the reply the client got equal the leader's reply for the same request?
 SameAsLeader(e, r, u) ==
@@ -222,17 +254,28 @@ StepReply(mm, e) ==
               THEN Report(m2, "C10", IF hasUp THEN "relayed-reply-differs" ELSE "fabricated-success",
                           [rid |-> r.id, node |-> r.node, conn |-> r.conn, proto |-> r.proto, cmd |-> r.cmd, key |-> k, forwarded |-> (r.uprid # 0),
                            got |-> [res |-> e.res, lid |-> e.lid, lc |-> e.lc, lrc |-> e.lrc], leader |-> u])
-              ELSE IF hasUp /\ ~Refusal(e)
-              THEN Report(m2, "C10", "relayed-reply-differs", [rid |-> r.id, node |-> r.node, proto |-> r.proto, cmd |-> r.cmd,
-                                                               got |-> [res |-> e.res, lid |-> e.lid, lc |-> e.lc, cnt |-> e.cnt, lrc |-> e.lrc, rc |-> e.rc, datap |-> e.datap], leader |-> u])
-              ELSE IF hasUp /\ ~r.broken
+              ELSE IF hasUp /\ Refusal(e) /\ ~r.broken
               THEN \* the leader answered, the upstream was intact, yet the client was told an error of the node's own
                    Report(m2, "C10", "leader-reply-replaced-by-local-error", [rid |-> r.id, node |-> r.node, got |-> e.res, leader |-> u.res])
-              ELSE \* a refusal of the node's own (any code / text): allowed.  Recorded (not judged): the first command of a text
-                   \* connection that fitted the first read was answered by the node itself although a leader was reachable
-                   IF r.first /\ r.len > 0 /\ r.len <= 64 /\ ~r.nolead /\ ~hasUp /\ r.role = "follower"
+              ELSE IF Refusal(e)
+              THEN \* a refusal of the node's own (STATE_ERROR, ERROR, an -ERR line): allowed.  Recorded (not judged): the first
+                   \* command of a text connection that fitted the first read was refused by the node itself although a leader
+                   \* was reachable
+                   IF FirstShort(r) /\ ~r.nolead /\ ~hasUp
                    THEN Report(m2, "OBS", "first-text-command-answered-by-inner-protocol", [rid |-> r.id, node |-> r.node, cmd |-> r.cmd, res |-> e.res, err |-> e.err])
                    ELSE m2
+              ELSE IF hasUp
+              THEN Report(m2, "C10", "relayed-reply-differs", [rid |-> r.id, node |-> r.node, proto |-> r.proto, cmd |-> r.cmd,
+                                                               got |-> [res |-> e.res, lid |-> e.lid, lc |-> e.lc, cnt |-> e.cnt, lrc |-> e.lrc, rc |-> e.rc, datap |-> e.datap], leader |-> u])
+              ELSE IF FastPath(mm, r, e)
+              THEN m2          \* the documented follower fast path: concurrent-check flag AND no wait AND the key full in the replica
+              ELSE IF FirstShort(r)
+              THEN \* the first-text-command deviation again, answered with a lock-engine code of the node's own engine
+                   \* (UNLOCK_ERROR for a key its replica does not have, DEL -> :0): recorded, not judged
+                   Report(m2, "OBS", "first-text-command-answered-by-inner-protocol", [rid |-> r.id, node |-> r.node, cmd |-> r.cmd, res |-> e.res, err |-> e.err])
+              ELSE \* neither the leader's reply nor a refusal nor the fast path: the node answered from its own state
+                   Report(m2, "C10", "non-leader-answered-on-its-own", [rid |-> r.id, node |-> r.node, conn |-> r.conn, proto |-> r.proto, cmd |-> r.cmd, key |-> k,
+                                                                       flag |-> r.flag, timeout |-> r.to, rcount |-> r.rc, res |-> e.res, lc |-> e.lc, forwarded |-> (r.uprid # 0)])
         \* requests whose fate at the leader is unknown: stop judging the key
         unknownFate == ~decided /\ r.uprid # 0 /\ r.cmd \in {"L", "U"}
         m4 == IF unknownFate THEN [m3 EXCEPT !.taint = @ \cup {<<d, k>>}] ELSE m3
@@ -250,7 +293,11 @@ StepUnanswered(mm, e) ==
         hasUp == r.uprid # 0 /\ r.uprid \in DOMAIN mm.ups
         m1 == [mm EXCEPT !.reqs[e.rid].st = "done", !.taint = IF r.cmd \in {"L", "U"} THEN @ \cup {<<r.dom, r.key>>} ELSE @]
     IN IF r.broken
-       THEN Report(m1, "C03", "request-unanswered-after-upstream-break", [rid |-> r.id, node |-> r.node, conn |-> r.conn, leader_answered |-> hasUp])
+       THEN \* forwarded, its upstream connection broke, and the node told the client nothing: neither refused nor relayed
+            \* (rollbackLatestCommand answers only the latest request written to the upstream)
+            Report(m1, "C10", "request-via-follower-never-answered",
+                   [cause |-> IF r.nfl > 1 THEN "upstream-broke-with-several-requests-in-flight" ELSE "upstream-broke",
+                    rid |-> r.id, node |-> r.node, conn |-> r.conn, proto |-> r.proto, in_flight |-> r.nfl, leader_answered |-> hasUp])
        ELSE IF hasUp THEN Report(m1, "C10", "leader-reply-not-relayed", [rid |-> r.id, node |-> r.node, conn |-> r.conn, leader |-> mm.ups[r.uprid].res])
        ELSE Report(m1, "C10", "request-never-answered", [rid |-> r.id, node |-> r.node, conn |-> r.conn, forwarded |-> (r.uprid # 0)])
 
@@ -291,7 +338,16 @@ StepSnap(mm, e) ==
                                /\ SnapPairs(e.keys[i]) # MonPairs(HoldsOf(mm, d, e.keys[i].key))}
              m1 == Check(mm, Bad = {}, "C10", IF d = mm.ldr THEN "leader-snapshot-differs-from-history" ELSE "promoted-node-snapshot-differs-from-history",
                          [node |-> d, keys |-> SetToSeq({[key |-> e.keys[i].key, snapshot |-> e.keys[i].holds, history |-> HoldsOf(mm, d, e.keys[i].key)] : i \in Bad})])
-         IN IF d = mm.ldr THEN [m1 EXCEPT !.lsnap = e.keys] ELSE m1
+             \* expiry deadlines on the stand-alone leader: what the last lock / re-lock / update of each hold implies
+             BadDl == IF d # "L" THEN {} ELSE
+                      {i \in K : ~Tainted(mm, d, e.keys[i].key) /\ OpenOn(mm, d, e.keys[i].key, 0) = {}
+                                  /\ \E j \in 1..Len(e.keys[i].holds) :
+                                        LET sh == e.keys[i].holds[j]
+                                            ix == IdxOfLid(HoldsOf(mm, d, e.keys[i].key), sh.lid)
+                                        IN ix # 0 /\ ~(HoldsOf(mm, d, e.keys[i].key)[ix].dlo <= sh.exp /\ sh.exp <= HoldsOf(mm, d, e.keys[i].key)[ix].dhi)}
+             m2 == Check(m1, BadDl = {}, "C10", "leader-deadline-differs-from-history",
+                         [node |-> d, keys |-> SetToSeq({[key |-> e.keys[i].key, snapshot |-> e.keys[i].holds, history |-> HoldsOf(mm, d, e.keys[i].key)] : i \in BadDl})])
+         IN IF d = mm.ldr THEN [m2 EXCEPT !.lsnap = e.keys] ELSE m2
     ELSE IF "alone" \in DOMAIN e /\ e.alone
     THEN \* the leader is dead: the follower holds nothing the leader's history does not explain
          LET Bad == {i \in K : ~Tainted(mm, mm.ldr, e.keys[i].key) /\ OpenOn(mm, mm.ldr, e.keys[i].key, 0) = {}
